@@ -1,9 +1,10 @@
 /-
 C01 — Collections have value semantics: mutation never leaks through an alias.
 
-Impl  = the reference-counted heap of `Impl/Heap.lean` (handles, strong counts, `Rc::make_mut` at every
-        level of an index path, `drop_lhs` + operator + assign for `append=`, pop / remove / consume /
-        swap) — sharing is explicit, mutation is in place whenever the strong count is 1.
+Impl  = the reference-counted heap of `Impl/Heap.lean` (handles, strong counts, list AND dict
+        allocations, `Rc::make_mut` at every level of an index path, insertion of a new dict key at the
+        last level, `drop_lhs` + operator + assign for `append=`, pop / remove / consume / swap) —
+        sharing is explicit, mutation is in place whenever the strong count is 1.
 Spec  = the pure store of `Spec/Store.lean`: one tree per variable, every statement the functional
         update of the addressed slot.
 Theorems (all statement lists, all alias graphs the vocabulary can build, all nesting depths):
@@ -65,25 +66,28 @@ theorem history_refines_prefix (n : Nat) (pre suf : List Stmt) :
 /-! ### the abstraction is a function: a heap value represents at most one tree, and `readback`
 computes it -/
 
+theorem Tree.cont_ext {t t' : Tree} (hc : t.isCont = true) (hc' : t'.isCont = true)
+    (hk : t.keysT = t'.keysT) (hkids : t.kids = t'.kids) : t = t' := by
+  cases t <;> cases t' <;> simp_all [Tree.isCont, Tree.keysT, Tree.kids]
+
 theorem repN_functional : ∀ (k k' : Nat) (h : Heap) (v : Val) (t t' : Tree),
     RepN k h v t → RepN k' h v t' → t = t' := by
   intro k
   induction k with
   | zero =>
     intro k' h v t t' r r'
-    cases v <;> cases t <;> cases t' <;> simp at r r' ⊢
-    omega
+    cases v <;> simp at r r' <;> rw [r, r']
   | succ k ih =>
     intro k' h v t t' r r'
     cases v with
-    | null => cases t <;> cases t' <;> simp at r r' ⊢
-    | int n => cases t <;> cases t' <;> simp at r r' ⊢; omega
+    | null => simp at r r'; rw [r, r']
+    | int n => simp at r r'; rw [r, r']
     | ref id =>
-      obtain ⟨k1, ts, hk1, rfl, _, a⟩ := RepN_ref_inv r
-      obtain ⟨k2, ts', hk2, rfl, _, a'⟩ := RepN_ref_inv r'
+      obtain ⟨k1, hk1, hc, _, hkk, _, a⟩ := RepN_ref_inv r
+      obtain ⟨k2, hk2, hc', _, hkk', _, a'⟩ := RepN_ref_inv r'
       have hk : k1 = k := by omega
       subst hk
-      congr 1
+      refine Tree.cont_ext hc hc' (by rw [← hkk, ← hkk']) ?_
       -- pointwise equality of the two tree lists
       have : ∀ (vs : List Val) (ts ts' : List Tree), All2 (RepN k1 h) vs ts → All2 (RepN k2 h) vs ts' → ts = ts' := by
         intro vs
@@ -130,36 +134,39 @@ theorem readback_of_repN : ∀ (k : Nat) (h : Heap) (v : Val) (t : Tree), RepN k
   induction k with
   | zero =>
     intro h v t r f _
-    cases v <;> cases t <;> simp at r
-    · cases f <;> rfl
-    · subst r; cases f <;> rfl
+    cases v <;> simp at r <;> subst r <;> cases f <;> rfl
   | succ k ih =>
     intro h v t r f hf
     cases v with
-    | null => cases t <;> simp at r; cases f <;> rfl
-    | int n => cases t <;> simp at r; subst r; cases f <;> rfl
+    | null => simp at r; subst r; cases f <;> rfl
+    | int n => simp at r; subst r; cases f <;> rfl
     | ref id =>
-      obtain ⟨k1, ts, hk1, rfl, _, a⟩ := RepN_ref_inv r
+      obtain ⟨k1, hk1, hc, _, hkk, _, a⟩ := RepN_ref_inv r
       have hk : k1 = k := by omega
       subst hk
       cases f with
       | zero => omega
       | succ f =>
-        simp only [readback]
-        congr 1
-        have : ∀ (vs : List Val) (ts : List Tree), All2 (RepN k1 h) vs ts → vs.map (readback f h) = ts := by
-          intro vs
-          induction vs with
-          | nil => intro ts a; cases ts <;> simp at a ⊢
-          | cons v vs ihv =>
-            intro ts a
-            cases ts with
-            | nil => simp at a
-            | cons t ts =>
-              simp only [All2.cons_cons] at a
-              simp only [List.map_cons]
-              rw [ih _ _ _ a.1 f (by omega), ihv _ a.2]
-        exact this _ _ a
+        have hkids : (payloadOf h id).map (readback f h) = t.kids := by
+          have : ∀ (vs : List Val) (ts : List Tree), All2 (RepN k1 h) vs ts → vs.map (readback f h) = ts := by
+            intro vs
+            induction vs with
+            | nil => intro ts a; cases ts <;> simp at a ⊢
+            | cons v vs ihv =>
+              intro ts a
+              cases ts with
+              | nil => simp at a
+              | cons t ts =>
+                simp only [All2.cons_cons] at a
+                simp only [List.map_cons]
+                rw [ih _ _ _ a.1 f (by omega), ihv _ a.2]
+          exact this _ _ a
+        simp only [readback, hkk, hkids]
+        cases t with
+        | null => simp at hc
+        | int n => simp at hc
+        | list ts => rfl
+        | dict ks vs => rfl
 
 /-- **`readback_correct`**: reading every cell back with enough fuel yields the represented store -/
 theorem readback_correct {s : State} {σ : Store} (R : Refines s σ) :
@@ -198,7 +205,7 @@ def targets : Stmt → List Nat
 theorem get_set_ne (σ : Store) (x z : Nat) (t : Tree) (h : z ≠ x) : Store.get (σ.set x t) z = Store.get σ z := by
   simp [Store.get, List.getD, List.getElem?_set_ne (Ne.symm h)]
 
-theorem spec_extract_others (σ : Store) (φ : Tree → Option (Tree × Tree)) (y x z : Nat) (path : List Int)
+theorem spec_extract_others (σ : Store) (φ : Store.LeafT) (y x z : Nat) (path : List Int)
     (hx : z ≠ x) (hy : z ≠ y) : Store.get (Store.extract σ φ y x path).1 z = Store.get σ z := by
   unfold Store.extract
   split
@@ -307,7 +314,7 @@ theorem alias_unchanged (s : State) (σ : Store) (x y : Nat) (st : Stmt) (R : Re
 
 /-- Spec level, one level of an index path: the transformed list has the same length and every
 sibling of the addressed element is unchanged -/
-theorem modPath_siblings (φ : Tree → Option (Tree × Tree)) (ts : List Tree) (i : Int) (rest : List Int)
+theorem modPath_siblings (φ : Store.LeafT) (ts : List Tree) (i : Int) (rest : List Int)
     (t' r : Tree) (h : modPath φ (.list ts) (i :: rest) = some (t', r)) :
     ∃ j ts', pyIdx ts.length i = some j ∧ t' = .list ts' ∧ ts'.length = ts.length ∧
       ∀ k, k ≠ j → ts'.getD k .null = ts.getD k .null := by
@@ -360,6 +367,8 @@ theorem call_preserves_caller_vars (s : State) (σ : Store) (x : Nat) (b : Atom)
     exact ⟨frame_preserves_vars R (by simpa using A.2.inv) (st0.trans A.2.stable), A.1⟩
   | int n =>
     exact ⟨frame_preserves_vars R (by simpa using A.2.inv) (st0.trans A.2.stable), A.1⟩
+  | dict ks vs =>
+    exact ⟨frame_preserves_vars R (by simpa using A.2.inv) (st0.trans A.2.stable), A.1⟩
   | list ts =>
     obtain ⟨c, hc, tr, rc⟩ := A
     refine ⟨frame_preserves_vars R (tr.inv.weaken (fun k => by simp [occ_cons])) (st0.trans tr.stable), c, hc, rc⟩
@@ -403,5 +412,25 @@ example : (abs (RcHeap.run (State.init 1) [.assign 0 (.list [.int 1, .int 2, .in
 example : (abs (RcHeap.run (State.init 2)
     [.assign 0 (.list [.int 1, .int 2, .int 3]), .assign 1 (.atom (.var 0)), .appendPop 0 [] 1 []])).map Tree.render
     = ["[1,2,3,3]", "[1,2]"] := by decide
+
+/-! ### dicts: value semantics through keys
+
+`d = {1: 5, 2: 6}; e = d; d[3] = 7` — inserting a NEW key goes through `set_index`'s dict arm
+(`make_mut` — the dict is shared with `e`, so it is copied — then `insert`); `e` keeps its two entries.
+`step_refines` covers index assignment, operator-assignment, remove, consume, update through dict keys
+at any depth (lists of dicts of lists …); these are concrete instances. -/
+
+example : (abs (RcHeap.run (State.init 2)
+    [.assign 0 (.dict [(1, .int 5), (2, .int 6)]), .assign 1 (.atom (.var 0)),
+     .setIdx 0 [3] (.atom (.int 7)), .setIdx 0 [1] (.atom (.int 9))])).map Tree.renderRaw
+    = ["{1:9,2:6,3:7}", "{1:5,2:6}"] := by decide +kernel
+
+/-- `c = [d, e]; c[0][3] = [1]; c[0][3] append= 2; r = remove c[0][1]` with `d` still bound: only the
+copy inside `c` changes -/
+example : (abs (RcHeap.run (State.init 3)
+    [.assign 0 (.dict [(1, .int 9), (3, .int 7)]), .assign 2 (.list [.var 0, .null]),
+     .setIdx 2 [0, 3] (.list [.int 1]), .append 2 [0, 3] (.atom (.int 2)),
+     .remove 1 2 [0] 1])).map Tree.renderRaw
+    = ["{1:9,3:7}", "9", "[{3:[1,2]},null]"] := by decide +kernel
 
 end Noulith.C01
